@@ -11,7 +11,12 @@ Local Open Scope byte_scope.
 
 (* a count row: label, count tokens, and the text after the last count (e.g. blanks and the
    consensus letter of TRANSFAC files; may be empty) *)
-Record prow := mkRow { pr_label : str; pr_toks : list str; pr_tail : str }.
+Record prow := mkRow {
+  pr_label : str;
+  pr_toks : list (str * str);   (* the blanks/tabs written before each count, and the count *)
+  pr_tail : str }.
+
+Definition row_toks (r : prow) : list str := map snd (pr_toks r).
 
 (* the lines of a record, in file order *)
 Inductive fieldk := FAC | FID | FNA | FDE.
@@ -36,9 +41,10 @@ Inductive item :=
 | IDT (day month year : str) (created : bool) (author : str)
                                     (* "DT  dd.mm.yyyy (created|updated); author." (not shown by Record) *)
 | IMatrix (po : bool)               (* the header is spelled "PO" (else "P0") *)
-          (sep : str)               (* blanks/tabs written before every symbol and every count *)
-          (syms : str)              (* symbol letters of the header, in file order *)
+          (syms : list (str * byte)) (* the blanks/tabs written before each symbol letter, and the letter *)
           (rows : list prow).
+
+Definition sym_letters (syms : list (str * byte)) : str := map snd syms.
 
 Definition prec := list item.
 
@@ -51,8 +57,8 @@ Definition eol_of (crlf : bool) : str := if crlf then [x0d; x0a] else [x0a].
 
 Definition xx_line (eol : str) : str := ["X"; "X"] ++ eol.
 
-Definition print_row (eol sep : str) (r : prow) : str :=
-  pr_label r ++ flat_map (fun t => sep ++ t) (pr_toks r) ++ pr_tail r ++ eol.
+Definition print_row (eol : str) (r : prow) : str :=
+  pr_label r ++ flat_map (fun st => fst st ++ snd st) (pr_toks r) ++ pr_tail r ++ eol.
 
 Definition print_refline (eol : str) (l : refline) : str :=
   match l with
@@ -77,9 +83,9 @@ Definition print_item (eol : str) (it : item) : str :=
       ["D"; "T"; " "; " "] ++ d ++ ["."] ++ m ++ ["."] ++ y ++ [" "; "("] ++
       (if created then ["c"; "r"; "e"; "a"; "t"; "e"; "d"] else ["u"; "p"; "d"; "a"; "t"; "e"; "d"]) ++
       [")"; ";"; " "] ++ author ++ ["."] ++ eol
-  | IMatrix po sep syms rows =>
-      ["P"; if po then "O" else "0"] ++ flat_map (fun c => sep ++ [c]) syms ++ eol
-      ++ flat_map (print_row eol sep) rows
+  | IMatrix po syms rows =>
+      ["P"; if po then "O" else "0"] ++ flat_map (fun sc => fst sc ++ [snd sc]) syms ++ eol
+      ++ flat_map (print_row eol) rows
   end.
 
 Definition print_body (eol : str) (r : prec) : str := flat_map (print_item eol) r.
@@ -147,9 +153,9 @@ Definition apply_item (al : alpha) (r : record) (it : item) : record :=
   match it with
   | IRef num xref lines => add_ref (ref_of num xref lines) r
   | IField k _ v => set_field k v r
-  | IMatrix _ _ syms rows =>
-      match sym_indices al syms with
-      | Some idx => set_data (build_matrix al idx (map pr_toks rows)) r
+  | IMatrix _ syms rows =>
+      match sym_indices al (sym_letters syms) with
+      | Some idx => set_data (build_matrix al idx (map row_toks rows)) r
       | None => r
       end
   | _ => r
@@ -178,9 +184,9 @@ Fixpoint last_field (k : fieldk) (p : prec) : option str :=
 
 Definition item_matrix (al : alpha) (it : item) : option (list (list cell)) :=
   match it with
-  | IMatrix _ _ syms rows =>
-      match sym_indices al syms with
-      | Some idx => Some (build_matrix al idx (map pr_toks rows))
+  | IMatrix _ syms rows =>
+      match sym_indices al (sym_letters syms) with
+      | Some idx => Some (build_matrix al idx (map row_toks rows))
       | None => None
       end
   | _ => None
@@ -236,7 +242,8 @@ Definition tail_ok (tl : str) : bool :=
   no_nl tl && utf8_valid tl && match tl with [] => true | b :: _ => is_blank b end.
 
 Definition row_ok (k : nat) (r : prow) : bool :=
-  label_ok (pr_label r) && Nat.eqb (length (pr_toks r)) k && forallb token_ok (pr_toks r) &&
+  label_ok (pr_label r) && Nat.eqb (length (pr_toks r)) k &&
+  forallb (fun st => sep_ok (fst st) && token_ok (snd st)) (pr_toks r) &&
   tail_ok (pr_tail r).
 
 Definition no_dot (s : str) : bool := forallb (fun b => negb (beq "." b)) s.
@@ -274,10 +281,10 @@ Definition item_ok (al : alpha) (it : item) : bool :=
   | IField _ pad v => forallb is_blank pad && field_ok v
   | ISkip _ v => no_nl v && utf8_valid v
   | IXX => true
-  | IMatrix _ sep syms rows =>
+  | IMatrix _ syms rows =>
       match syms with [] => false | _ => true end &&
-      match sym_indices al syms with Some _ => true | None => false end &&
-      nodupb syms && sep_ok sep &&
+      match sym_indices al (sym_letters syms) with Some _ => true | None => false end &&
+      nodupb (sym_letters syms) && forallb (fun sc => sep_ok (fst sc)) syms &&
       match rows with [] => false | _ => true end &&
       forallb (row_ok (length syms)) rows
   end.
